@@ -63,8 +63,14 @@ def get_passes():
             if mname not in late:
                 main.append(mname)
 
+    # The result is a fixed point of the last pass.  It has to contain every
+    # mutator the earlier passes use - also the binary reduction restricted to
+    # assert commands, which proposes simplifications the unrestricted one
+    # does not (a later pass may make one of them acceptable).
     return prelude + [
         mutators.get_mutators(main),
+        mutators.get_initialized_mutator('BinaryReduction',
+                                         {'ident': 'assert'}) +
         mutators.get_mutators(late + main),
     ]
 
